@@ -60,7 +60,17 @@ BestFirstIds == <<23, 21, 20, 19, 18, 22, 16, 17, 15, 14, 13, 11, 12, 10, 9, 8, 
 RECURSIVE IsSubSeqFrom(_, _, _, _)
 IsSubSeqFrom(lst, i, ref, j) == IF i > Len(lst) THEN TRUE ELSE IF j > Len(ref) THEN FALSE
                                 ELSE IF lst[i] = ref[j] THEN IsSubSeqFrom(lst, i + 1, ref, j + 1) ELSE IsSubSeqFrom(lst, i, ref, j + 1)
-DefaultListOK(lst, best) == Len(lst) >= 1 /\ IsSubSeqFrom(lst, 1, BestFirstIds, 1) /\ best = lst[1]
+\* "best-first" as a partial order (the property fixes no order between unrelated extensions of the same width): a wider register file
+\* comes first, and an architecture comes before everything it extends.  ParentId / WidthOf follow Geometry.SpecArchs.
+ParentId == <<0, 1, 2, 3, 4, 5, 5, 0, 8, 8, 10, 10, 0, 13, 14, 15, 14, 17, 16, 19, 20, 16, 21>>
+WidthOf(a) == IF a <= 7 THEN 128 ELSE IF a <= 12 THEN 256 ELSE 512
+RECURSIVE Extends(_, _)
+Extends(a, b) == ParentId[a] # 0 /\ (ParentId[a] = b \/ Extends(ParentId[a], b))          \* a (transitively) extends b
+Better(a, b) == WidthOf(a) > WidthOf(b) \/ Extends(a, b)
+NoDup(lst) == \A i, j \in 1 .. Len(lst) : i # j => lst[i] # lst[j]
+DefaultListOK(lst, best) == /\ Len(lst) >= 1 /\ NoDup(lst) /\ best = lst[1]
+                            /\ \A i, j \in 1 .. Len(lst) : i < j => ~Better(lst[j], lst[i])
+ASSUME \A i, j \in 1 .. 23 : i < j => ~Better(BestFirstIds[j], BestFirstIds[i])          \* the specification's own order satisfies it
 Termination == <>(walk.called # <<>> \/ walk.pos = 0)
 Spec == Init /\ [][Next]_dvars /\ WF_dvars(DispatchProbe) /\ WF_dvars(DispatchCall)
 =============================================================================
